@@ -289,6 +289,13 @@ func (cd *codeStore) Last() uint32 {
 	if cd.pc == 0 {
 		return opInvalidInstruction
 	}
+	if cd.pc >= 2 {
+		// the word behind an extended SETLIST (C == 0) is its batch number, not an
+		// instruction: no peephole optimisation may inspect, rewrite or pop it
+		if prev := cd.codes[cd.pc-2]; opGetOpCode(prev) == OP_SETLIST && opGetArgC(prev) == 0 {
+			return opInvalidInstruction
+		}
+	}
 	return cd.codes[cd.pc-1]
 }
 
